@@ -104,14 +104,20 @@ def case(job):
     part = Part()
     for (proj, theta, scale, skew, parity, crpix_kind, crval, size, kind) in job:
         w_, h_ = size
-        crpix = {"centre": ((w_ + 1) / 2.0, (h_ + 1) / 2.0), "corner": (1.0, 1.0), "outside-a": (-20.0, 3.0 * h_), "outside-b": (2.0 * w_, -5.0)}[crpix_kind]
+        crpix = {"centre": ((w_ + 1) / 2.0, (h_ + 1) / 2.0), "foreign-naxis": ((w_ + 1) / 2.0 + 0.25, (h_ + 1) / 2.0), "corner": (1.0, 1.0), "outside-a": (-20.0, 3.0 * h_), "outside-b": (2.0 * w_, -5.0)}[crpix_kind]
         cfg = {"proj": proj, "theta": theta, "scale": scale, "skew": skew, "parity_in": parity, "crpix": crpix_kind, "crval": crval, "size": size, "kind": kind}
         part.case(nontrivial=(isinstance(theta, str) or theta != 0 or skew != 0 or crpix_kind != "centre"))
 
         def bad(clause, detail):
             part.violation("%s/%s" % (clause, kind), "%r: %s" % (cfg, detail), cfg)
 
+        # a thousandth of a pixel, never looser than 1e-9 degree, plus the resolution of a double at 360 degrees
+        TOL = min(1e-9, 1e-3 * min(scale)) + 2e-13
         wcs = make_wcs(proj, theta, scale, skew, parity, crpix, crval)
+        if crpix_kind == "foreign-naxis":
+            # the WCS object remembers the array size of the FITS file it was read from (NAXISn), which is not the
+            # size of the image it is attached to (a preview, a cut-out)
+            wcs.array_shape = (h_ + 7, w_ + 3)
         data = (np.arange(w_ * h_, dtype=np.float32).reshape(h_, w_) + 1)
         try:
             if kind == "image":
@@ -138,7 +144,7 @@ def case(job):
             obj.flip_parity()
             rat, dect = world(twin.wcs, xs.ravel(), ys.ravel())
             okt = np.isfinite(ra0) & np.isfinite(rat)
-            if okt.any() and sep_deg(ra0[okt], dec0[okt], rat[okt], dect[okt]).max() > 1e-9:
+            if okt.any() and sep_deg(ra0[okt], dec0[okt], rat[okt], dect[okt]).max() > TOL:
                 bad("flip-mutates-shared-wcs", "flipping one object changed another object built on the same WCS instance")
             p1 = obj.get_parity_sign()
             ra1, dec1 = world(obj.wcs, xs.ravel(), (h_ - 1 - ys).ravel())
@@ -155,7 +161,7 @@ def case(job):
         ok = np.isfinite(ra0) & np.isfinite(ra1)
         if ok.any():
             d = sep_deg(ra0[ok], dec0[ok], ra1[ok], dec1[ok])
-            if d.max() > 1e-9:
+            if d.max() > TOL:
                 k = int(np.argmax(d))
                 bad("pixel-moved-on-sky", "pixel moved by %.3g deg (max over %d pixels)" % (d.max(), ok.sum()))
         if kind in ("image", "image-pil"):
@@ -167,7 +173,7 @@ def case(job):
             ra2, dec2 = world(obj.wcs, xs.ravel(), ys.ravel())
             if obj.get_parity_sign() != p0:
                 bad("double-flip-parity", "parity after two flips %r" % obj.get_parity_sign())
-            if ok.any() and sep_deg(ra0[ok], dec0[ok], ra2[ok], dec2[ok]).max() > 1e-9:
+            if ok.any() and sep_deg(ra0[ok], dec0[ok], ra2[ok], dec2[ok]).max() > TOL:
                 bad("double-flip-not-identity", "two flips move pixels on the sky")
             if kind in ("image", "image-pil") and not np.array_equal(np.asarray(obj.asarray()), data):
                 bad("double-flip-data", "two flips do not restore the data")
@@ -180,7 +186,7 @@ def case(job):
             if pe != -1 or obj.get_parity_sign() != -1:
                 bad("ensure_negative_parity", "parity %r after ensure_negative_parity (twice: %r)" % (pe, obj.get_parity_sign()))
             raf, decf = world(obj.wcs, xs.ravel(), ((h_ - 1 - ys) if flipped else ys).ravel())
-            if ok.any() and max(sep_deg(ra0[ok], dec0[ok], rae[ok], dece[ok]).max(), sep_deg(ra0[ok], dec0[ok], raf[ok], decf[ok]).max()) > 1e-9:
+            if ok.any() and max(sep_deg(ra0[ok], dec0[ok], rae[ok], dece[ok]).max(), sep_deg(ra0[ok], dec0[ok], raf[ok], decf[ok]).max()) > TOL:
                 bad("ensure_negative_parity-moves-pixels", "ensure_negative_parity moved pixels on the sky or is not idempotent")
             if kind in ("image", "image-pil") and not np.array_equal(np.asarray(obj.asarray()), data[::-1] if flipped else data):
                 bad("ensure_negative_parity-data", "data not consistent with the WCS after ensure_negative_parity")
@@ -192,7 +198,7 @@ def case(job):
             if obj.get_parity_sign() != -1:
                 bad("ensure_negative_parity-after-flip", "ensure_negative_parity(), flip_parity(), ensure_negative_parity() left parity %r" % obj.get_parity_sign())
             rag, decg = world(obj.wcs, xs.ravel(), ((h_ - 1 - ys) if flipped else ys).ravel())
-            if ok.any() and sep_deg(ra0[ok], dec0[ok], rag[ok], decg[ok]).max() > 1e-9:
+            if ok.any() and sep_deg(ra0[ok], dec0[ok], rag[ok], decg[ok]).max() > TOL:
                 bad("ensure_negative_parity-after-flip", "the ensure/flip/ensure history moved pixels on the sky")
             # ONE WCS instance shared by several images of different heights (a frame and versions with rows
             # trimmed off or added at the end), each of them flipped: every one keeps its pixels on the sky
@@ -207,7 +213,7 @@ def case(job):
                 o2.flip_parity()
                 ra_, da_ = world(o2.wcs, x2.ravel(), (hk - 1 - y2).ravel())
                 okk = np.isfinite(rb) & np.isfinite(ra_)
-                if okk.any() and sep_deg(rb[okk], db[okk], ra_[okk], da_[okk]).max() > 1e-9:
+                if okk.any() and sep_deg(rb[okk], db[okk], ra_[okk], da_[okk]).max() > TOL:
                     bad("shared-wcs-different-heights", "of several objects built on one WCS instance, the one of height %d (others %d) moved by %.3g deg when flipped" % (hk, h_, sep_deg(rb[okk], db[okk], ra_[okk], da_[okk]).max()))
                     break
         except Exception as e:
@@ -233,7 +239,7 @@ def run(tier, seed):
         "{Image, ImageDescription}, plus a thinned copy of the lattice with latitude-first world axes; one WCS instance shared by objects of three heights, each flipped; every pixel of every image compared; non-trivial = rotated, skewed or off-centre reference pixel"
         % (projs, thetas, skews, sizes)
     )
-    rep.assumptions = ["linear WCS only (no SIP/TPV distortion terms)", "sky positions compared to 1e-9 degree as angular separation"]
+    rep.assumptions = ["linear WCS only (no SIP/TPV distortion terms)", "sky positions compared as angular separation to a thousandth of a pixel (at most 1e-9 degree)"]
     cases = []
     for proj, th, sc, sk, par_, ck, cv, sz in itertools.product(projs, thetas, scales, skews, (-1, 1), crpix_kinds, crvals, sizes):
         if proj == "SIN" and sc[0] > 0.1 and ck.startswith("outside"):
@@ -249,6 +255,15 @@ def run(tier, seed):
     # exactly-zero matrix entries (quarter turns written as 0/+-1, a shear with a zero diagonal), as CD and as CDELT+PC
     for proj, th, sc, form, par_, cv, sz, kind in itertools.product(projs[:1], sorted(EXACT), scales, (0.0, 1.0), (-1, 1), crvals[:2], [(2, 3), (5, 4)], ("image", "description")):
         cases.append((proj, th, sc, form, par_, "centre", cv, sz, kind))
+    # a WCS carrying a foreign array size; pixel scales down to a tenth of a milli-arcsecond (the determinant of
+    # the matrix, which decides the parity, scales with the square of the pixel size)
+    for th, sc, par_, cv, sz, kind in itertools.product(thetas[::2], scales[:2] + [(3e-8, 3e-8)], (-1, 1), crvals[:2], [(5, 4), (2, 3)], ("image", "description")):
+        cases.append((projs[0], th, sc, 0.0, par_, "foreign-naxis", cv, sz, kind))
+    for th, sk, par_, ck, cv, sz, kind in itertools.product(thetas, skews, (-1, 1), crpix_kinds[:2], crvals[:2], [(5, 4), (64, 48)], ("image", "description")):
+        for sc in ((3e-8, 3e-8), (2e-9, 3e-9)):
+            if sz == (64, 48) and (th not in (0, 45) or kind != "image"):
+                continue
+            cases.append((projs[0], th, sc, sk, par_, ck, cv, sz, kind))
     # latitude-first axis order (CTYPE1 = DEC--, CTYPE2 = RA---): the same lattice, thinned
     for proj, th, sc, sk, par_, ck, cv, sz in itertools.product(projs[:1], thetas[:: (1 if tier == "thorough" else 2)], scales[:2], skews, (-1, 1), crpix_kinds[:3], crvals, sizes[1:3]):
         for kind in ("image", "description"):
